@@ -5,11 +5,11 @@ package compose_test
 // producers chunk their output; failures are visible in all four.
 
 import (
-	"sync/atomic"
-	"time"
 	"context"
 	"fmt"
+	"sync/atomic"
 	"testing"
+	"time"
 
 	"github.com/cloudwego/eino/internal/gkit"
 	"github.com/cloudwego/eino/internal/vkit"
